@@ -23,7 +23,7 @@ def valAt : VFields → Nat → Option (Str × Val)
 theorem satFields_at (c : Cfg) : ∀ (fs : Fields) (m : Obj) (vs : VFields) (i : Nat) (name : Str) (tag : Option Str) (t : Ty),
     satFields c fs m vs = true → fieldAt fs i = some (name, tag, t) →
     ∃ v, valAt vs i = some (name, v)
-      ∧ fieldSat c name tag t.isSlice (derefKind t) m v (fun j v => satTy c.nest t j v) (fun v => satAbsent c t v)
+      ∧ fieldSat c name tag t.isSlice (derefKind t) m v (fun j v => satTy (c.nestIn m) t j v) (fun v => satAbsent c t v)
           (fun d v => satDefault t d v) (fun v => isZero t v) = true
   | .nil, _, _, _, _, _, _, _, h => by simp [fieldAt] at h
   | .cons n tg ty rest, m, vs, i, name, tag, t, hs, hf => by
@@ -51,7 +51,7 @@ theorem accepted_fieldwise (c : Cfg) (hc : c.pinned = false) (fs : Fields) (m : 
     (h : unmarshal c (.struct fs) (.obj m) = .ok v) (i : Nat) (name : Str) (tag : Option Str) (t : Ty)
     (hf : fieldAt fs i = some (name, tag, t)) :
     ∃ vs w, v = .struct vs ∧ valAt vs i = some (name, w)
-      ∧ fieldSat c name tag t.isSlice (derefKind t) m w (fun j v => satTy c.nest t j v) (fun v => satAbsent c t v)
+      ∧ fieldSat c name tag t.isSlice (derefKind t) m w (fun j v => satTy (c.nestIn m) t j v) (fun v => satAbsent c t v)
           (fun d v => satDefault t d v) (fun v => isZero t v) = true := by
   have hs := accept_sound c hc _ _ _ h
   cases v with
